@@ -594,28 +594,29 @@ Print Assumptions C17_close_reaches_every_caller_example.
 
     Every scenario of the simclose unit — a real client and a real server over the simulated network, ended by one
     of its causes with calls parked on both sides — logs per side the recorded cause and whether the close was
-    immediate (both read from Conn.closeErr), and the replay [SimRun.check_side] compares the model's predictions
+    immediate (both read from Conn.closeErr), sentFirstPacket and handshakeComplete, and the replay [SimRun.check_side] compares the model's predictions
     with what the API calls returned, what the router saw and what the transports' routing tables hold. For every side the
     replay accepts: *)
 Theorem C17_simulated_side : forall s, V.RunLoop.SimRun.check_side s = true ->
+  let ce := {| ce_err := V.RunLoop.Run.errk_of (V.RunLoop.SimRun.sd_cause s); ce_immediate := V.RunLoop.SimRun.sd_immediate s |} in
+  let frame := (let '(isApp, code) := close_frame (mapped_err ce) in (if isApp then 3 else 4, code)) in
+  V.RunLoop.SimRun.sd_hs s = true /\
   Forall (fun kc => snd kc = 0) (V.RunLoop.SimRun.sd_parked s ++ V.RunLoop.SimRun.sd_later s) /\
   V.RunLoop.SimRun.sd_routing s = 0 /\
   (V.RunLoop.SimRun.sd_sent s = true <->
      is_remote (V.RunLoop.Run.errk_of (V.RunLoop.SimRun.sd_cause s)) = false /\ V.RunLoop.SimRun.sd_immediate s = false /\
      silent_err (V.RunLoop.Run.errk_of (V.RunLoop.SimRun.sd_cause s)) = false /\
-     (exists isApp code, close_frame (mapped_err {| ce_err := V.RunLoop.Run.errk_of (V.RunLoop.SimRun.sd_cause s);
-                                                      ce_immediate := V.RunLoop.SimRun.sd_immediate s |}) = (isApp, code))) /\
-  (forall p, V.RunLoop.SimRun.sd_peer s = Some p -> V.RunLoop.SimRun.sd_sent s = true /\
-     p = (let '(isApp, code) := close_frame (mapped_err {| ce_err := V.RunLoop.Run.errk_of (V.RunLoop.SimRun.sd_cause s);
-                                                            ce_immediate := V.RunLoop.SimRun.sd_immediate s |}) in
-          (if isApp then 3 else 4, code))).
+     (V.RunLoop.SimRun.sd_client s = false \/ V.RunLoop.SimRun.sd_sentFirst s = true)) /\
+  (V.RunLoop.SimRun.sd_delivered s = true -> V.RunLoop.SimRun.sd_sent s = true /\ V.RunLoop.SimRun.sd_peer s = Some frame) /\
+  (forall p, V.RunLoop.SimRun.sd_peer s = Some p -> V.RunLoop.SimRun.sd_sent s = true /\ p = frame).
 Proof. exact V.RunLoop.ProofsSim.accepted_side. Qed.
 Print Assumptions C17_simulated_side.
 
-(** non-vacuity: an observation as logged by a client that closed with application error 52 *)
+(** non-vacuity: an observation as logged by a client that closed with application error 52, a copy of the frame delivered *)
 Example C17_simulated_side_example :
-  V.RunLoop.SimRun.check_side (V.RunLoop.SimRun.mkSide true (1, 52) false true [(0, 0); (2, 0); (6, 0)] [(8, 0); (7, 0); (1, 0)] 0 (Some (3, 52))) = true.
-Proof. reflexivity. Qed.
+  V.RunLoop.SimRun.check_side (V.RunLoop.SimRun.mkSide true (1, 52) false true true true [(0, 0); (2, 0); (6, 0)] [(8, 0); (7, 0); (1, 0)] 0 true (Some (3, 52))) = true /\
+  V.RunLoop.SimRun.check_side (V.RunLoop.SimRun.mkSide true (1, 52) false true true true [] [] 0 true None) = false.
+Proof. split; reflexivity. Qed.
 Print Assumptions C17_simulated_side_example.
 
 (** ** Non-vacuity *)
